@@ -357,6 +357,13 @@ bool advance_idle() {
 // reaches the next timer/environment event. Returns false when nothing can ever happen again.
 bool wait_kernel_event() {
     if (R->now > R->cfg.max_time_ns || R->horizon_hit) { R->horizon_hit = true; return false; }
+    // level-triggered: something that became ready since the last poll must not be slept through
+    for (auto &f : R->k.all_files())
+        if (f->kind == F_EPOLL)
+            for (auto &r : f->regs) {
+                auto t = r.wf.lock();
+                if (t && !r.disarmed && (R->k.readable(t.get()) || (t->kind == F_PIPE_R && t->pipe->writers == 0))) return true;
+            }
     int rc = epoll_block(-1, 0);
     return rc != 2;
 }
